@@ -93,6 +93,7 @@ package nsqd
 //@   ensures[write-error-returned] gMarshalErr == nil && gfsRenames == old(gfsRenames) ==> result != nil
 //@   ensures[document-built-now] gMetaSawTopicPauses == gTopicPauseCalls && gMetaSawChanPauses == gChanPauseCalls
 //@   ensures[topics-untouched] n.topicMap == old(n.topicMap)
+//@   onreturn gQuiesced := false
 //@   modifies Topic.channelMap, mapstore(map[string]*Channel), gMetaCalls, gMetaDoc, gMetaEph, gMetaOf, gMetaSawTopicPauses, gMetaSawChanPauses, gMarshals, gMarshalArg, gMarshalOut, gMarshalErr,
 //@        gfsOpens, gfsOpenName, gfsOpenFlag, gfsOpenPerm, gfsOpenFile, gfsOpenErr, gfsOpenClosed, gfsWrites, gfsWriteFile, gfsWriteData, gfsWriteErr, gfsWriteAfterClose, gfsSyncs, gfsSyncFile, gfsSyncErr, gfsSyncSawWrites, gfsSyncAfterClose, gfsCloses, gfsCloseFile,
 //@        gfsRenames, gfsRenameSrc, gfsRenameDst, gfsRenameErr
@@ -278,3 +279,17 @@ package nsqd
 //@        gfsOpens, gfsOpenName, gfsOpenFlag, gfsOpenPerm, gfsOpenFile, gfsOpenErr, gfsOpenClosed, gfsWrites, gfsWriteFile, gfsWriteData, gfsWriteErr, gfsWriteAfterClose, gfsSyncs, gfsSyncFile, gfsSyncErr, gfsSyncSawWrites, gfsSyncAfterClose, gfsCloses, gfsCloseFile,
 //@        gfsRenames
 
+
+// ---- Exit: shutdown order -------------------------------------------------------------------------------
+// The final metadata document is written under the NSQD lock, the topics are closed, the goroutines are waited for,
+// and only then is the data-path lock released: DirLock.Unlock's precondition [daemon-quiesced] is an obligation of
+// this function (C06: a second nsqd cannot get a data path that is still being written). After WaitGroup.Wait the
+// model knows nothing about the heap (the goroutines' effects), so the clauses are about the calls made.
+// n.dl is set once by New (sweep-checked). Closing a listener / cancelling the context touches no modelled state (assumed).
+//@ immutable NSQD.dl
+//@ benign (net.Listener).Close, fieldfunc:github.com/nsqio/nsq/nsqd.NSQD.ctxCancel
+//@ func (n *NSQD) Exit()
+//@   props C06 C05
+//@   requires n != nil && n.dl != nil && n.dl.f != nil
+//@   ensures[second-call-no-effect] old(n.isExiting) != 0 ==> gMetaCalls == old(gMetaCalls) && gFlocks == old(gFlocks) && gfsRenames == old(gfsRenames)
+//@   ensures[lock-released-once] old(n.isExiting) == 0 ==> gFlockHow == 8 && gFlockFd == wrapI64(gFdOf(n.dl.f))
